@@ -290,6 +290,17 @@ _keys = {
 }
 
 
+def _sort_corners(kw):
+    # Excel reads B2:A1 as A1:B2.
+    if 'r1' in kw and 'r2' in kw and int(kw['r1']) > int(kw['r2']):
+        kw['r1'], kw['r2'] = kw['r2'], kw['r1']
+    if 'n1' in kw and 'n2' in kw and int(kw['n1']) > int(kw['n2']):
+        kw['n1'], kw['n2'] = kw['n2'], kw['n1']
+    if 'c1' in kw and 'c2' in kw and _col2index(kw['c1']) > _col2index(kw['c2']):
+        kw['c1'], kw['c2'] = kw['c2'], kw['c1']
+    return kw
+
+
 def fast_range2parts(**kw):
     inputs = {k: kw[k] for k in _keys if k in kw}
 
@@ -355,6 +366,7 @@ def range2parts(outputs, **inputs):
 
     if 'sheet_id' not in inputs:
         inputs['sheet_id'] = _build_sheet_id(**inputs)
+    inputs = _sort_corners(inputs)
     try:
         return fast_range2parts(**inputs)
     except ValueError:
